@@ -9,10 +9,12 @@ import (
 	"fmt"
 	"math/big"
 	"os"
+	"sort"
 
 	"cvh/lib"
 
 	"github.com/onflow/cadence/interpreter"
+	"github.com/onflow/cadence/sema"
 )
 
 type op struct {
@@ -76,6 +78,10 @@ func main() {
 	switch *prop {
 	case "C12":
 		c12(sum)
+	case "C11":
+		c11(sum)
+	case "C13":
+		c13(sum)
 	default:
 		fmt.Fprintln(os.Stderr, "unknown prop", *prop)
 		os.Exit(2)
@@ -223,4 +229,372 @@ func c12(sum *lib.Summary) {
 			}
 		}
 	}
+}
+
+// fitOracle: exact-or-fail.
+func fitOracle(t lib.IntType, z *big.Int) outcome {
+	if m := t.Min(); m != nil && z.Cmp(m) < 0 {
+		return outcome{cls: lib.EUnderflow}
+	}
+	if m := t.Max(); m != nil && z.Cmp(m) > 0 {
+		return outcome{cls: lib.EOverflow}
+	}
+	return outcome{z: z}
+}
+
+func clampOracle(t lib.IntType, z *big.Int) outcome {
+	if m := t.Min(); m != nil && z.Cmp(m) < 0 {
+		return outcome{z: m}
+	}
+	if m := t.Max(); m != nil && z.Cmp(m) > 0 {
+		return outcome{z: m}
+	}
+	return outcome{z: z}
+}
+
+// pairs enumerates the operand pairs of a type: lattice x lattice, random, and exhaustive for 8 bits.
+// f(a, b, toCoq)
+func pairs(t lib.IntType, rng *lib.Rng, nrand, coqRand int, f func(a, b *big.Int, toCoq bool)) {
+	lat := t.Lattice()
+	for i, a := range lat {
+		for j, b := range lat {
+			f(a, b, *tier == "thorough" || (i*31+j*17)%12 == 0)
+		}
+	}
+	for i := 0; i < nrand; i++ {
+		f(t.Random(rng), t.Random(rng), i < coqRand)
+	}
+	// operands whose product / sum / difference lies right at a bound
+	if mx := t.Max(); mx != nil {
+		for i := 0; i < nrand/4+8; i++ {
+			a := t.Random(rng)
+			if a.Sign() == 0 {
+				continue
+			}
+			bound := mx
+			if rng.Bool() && t.Min() != nil && t.Min().Sign() < 0 {
+				bound = t.Min()
+			}
+			q := new(big.Int).Quo(bound, a)
+			for _, d := range []int64{-1, 0, 1} {
+				b := new(big.Int).Add(q, big.NewInt(d))
+				if t.InRange(b) {
+					f(a, b, i < coqRand/2+4)
+				}
+			}
+			s := new(big.Int).Sub(bound, a)
+			for _, d := range []int64{-1, 0, 1} {
+				b := new(big.Int).Add(s, big.NewInt(d))
+				if t.InRange(b) {
+					f(a, b, i < coqRand/4+2)
+				}
+				nb := new(big.Int).Neg(b)
+				if t.InRange(nb) {
+					f(a, nb, false)
+				}
+			}
+		}
+	}
+	if t.Bits == 8 {
+		lo, hi := t.Min().Int64(), t.Max().Int64()
+		for a := lo; a <= hi; a++ {
+			for b := lo; b <= hi; b++ {
+				f(big.NewInt(a), big.NewInt(b), false)
+			}
+		}
+	}
+}
+
+func sizes() (nrand, coqRand, nscript int) {
+	if *tier == "thorough" {
+		return 20000, 400, 1500
+	}
+	return 300, 30, 60
+}
+
+func c11(sum *lib.Summary) {
+	rng := lib.NewRng(*seed)
+	cw := &lib.CaseWriter{Dir: *dir, Prefix: "cases_C11", Header: "From CV Require Import Num.NumCases.",
+		ElemType: "ikind * binop * Z * Z * res Z", CheckFn: "check_checked", PerFile: 700}
+	cwn := &lib.CaseWriter{Dir: *dir, Prefix: "cases_C11neg", Header: "From CV Require Import Num.NumCases.",
+		ElemType: "ikind * Z * res Z", CheckFn: "check_neg", PerFile: 700}
+	distinct := map[string]bool{}
+	nrand, coqRand, nscript := sizes()
+	sum.Rule = "Int8..Int256, UInt8..UInt256, Int, UInt x {+,-,*,/,%,unary -}: all pairs of the boundary lattice, random pairs of varied " +
+		"bit length, pairs whose sum/difference/product lies within 1 of a bound, all 65536 pairs per operator for Int8 and UInt8; every case " +
+		"compared with a math/big oracle (exact-or-fail with truncated division) in Go; lattice pairs (a fifth at quick tier) and a random " +
+		"sample also evaluated by the Coq model checked_model; a sample runs as scripts in interpreter and VM. non-trivial = the required " +
+		"outcome is an error, or the exact result is within 1 of a bound of the type; distinct = distinct (type,op,a,b)"
+	var types []lib.IntType
+	for _, t := range lib.IntTypes {
+		if t.Kind != "word" {
+			types = append(types, t)
+		}
+	}
+	for _, t := range types {
+		for _, o := range arith {
+			pairs(t, rng, nrand, coqRand, func(a, b *big.Int, toCoq bool) {
+				got := run(t, o, a, b)
+				sum.Evaluations++
+				var want outcome
+				nontriv := false
+				if (o.Name == "ODiv" || o.Name == "ORem") && b.Sign() == 0 {
+					want = outcome{cls: lib.EDivZero}
+					nontriv = true
+				} else {
+					ex := exactOp(o.Name, a, b)
+					want = fitOracle(t, ex)
+					if want.cls != "" {
+						nontriv = true
+					} else {
+						for _, bd := range []*big.Int{t.Min(), t.Max()} {
+							if bd != nil && new(big.Int).Abs(new(big.Int).Sub(ex, bd)).Cmp(big.NewInt(1)) <= 0 {
+								nontriv = true
+							}
+						}
+					}
+				}
+				if nontriv {
+					key := fmt.Sprintf("%s %s %s %s", t.Name, o.Name, a, b)
+					if !distinct[key] {
+						distinct[key] = true
+						sum.DistinctNontrivial++
+					}
+					sum.Count("outcome " + want.clsOrOk())
+					sum.Sample(map[string]string{"type": t.Name, "expr": fmt.Sprintf("%s %s %s", a, o.Sym, b), "observed": got.String()})
+				}
+				sum.Count(t.Name + " " + o.Sym)
+				if !got.eq(want) {
+					sum.Fail(fmt.Sprintf("checked-arith:%s:%s", t.Name, o.Name),
+						fmt.Sprintf("%s: %s %s %s = %s, required %s", t.Name, a, o.Sym, b, got, want),
+						map[string]any{"type": t.Name, "op": o.Sym, "a": a.String(), "b": b.String(), "observed": got.String(), "required": want.String(), "via": "interpreter value method"})
+				}
+				if toCoq {
+					cw.Add(fmt.Sprintf("(%s, %s, %s, %s, %s)", t.CoqKind(), o.Name, lib.Z(a), lib.Z(b), lib.ResZ(got.cls, got.z)),
+						map[string]any{"type": t.Name, "op": o.Sym, "a": a.String(), "b": b.String(), "observed": got.String()})
+				}
+			})
+		}
+		// unary minus (signed kinds and Int)
+		if t.Kind == "signed" || t.Kind == "int" {
+			vals := append([]*big.Int{}, t.Lattice()...)
+			for i := 0; i < nrand; i++ {
+				vals = append(vals, t.Random(rng))
+			}
+			if t.Bits == 8 {
+				for a := int64(-128); a < 128; a++ {
+					vals = append(vals, big.NewInt(a))
+				}
+			}
+			for _, a := range vals {
+				var got outcome
+				cls, _ := lib.Catch(func() {
+					v := t.Make(a).Negate(nil)
+					got.z = lib.ValueToBig(v)
+				})
+				if cls != "" {
+					got = outcome{cls: cls}
+				}
+				want := fitOracle(t, new(big.Int).Neg(a))
+				sum.Evaluations++
+				sum.Count(t.Name + " neg")
+				if want.cls != "" {
+					key := fmt.Sprintf("%s neg %s", t.Name, a)
+					if !distinct[key] {
+						distinct[key] = true
+						sum.DistinctNontrivial++
+					}
+				}
+				if !got.eq(want) {
+					sum.Fail(fmt.Sprintf("checked-arith:%s:neg", t.Name), fmt.Sprintf("%s: -(%s) = %s, required %s", t.Name, a, got, want),
+						map[string]any{"type": t.Name, "op": "neg", "a": a.String(), "observed": got.String(), "required": want.String()})
+				}
+				cwn.Add(fmt.Sprintf("(%s, %s, %s)", t.CoqKind(), lib.Z(a), lib.ResZ(got.cls, got.z)),
+					map[string]any{"type": t.Name, "op": "neg", "a": a.String(), "observed": got.String()})
+			}
+		}
+	}
+	cw.Close()
+	cwn.Close()
+	sum.CaseFiles = append(cw.Files, cwn.Files...)
+	scripts(sum, rng, nscript, types, arith, "checked-arith-script", func(t lib.IntType, o op, a, b *big.Int) string {
+		return fmt.Sprintf("access(all) fun main(): %s { let a: %s = %s; let b: %s = %s; return a %s b }", t.Name, t.Name, a, t.Name, b, o.Sym)
+	})
+}
+
+func (o outcome) clsOrOk() string {
+	if o.cls != "" {
+		return o.cls
+	}
+	return "Ok"
+}
+
+// scripts runs a sample of operations as Cadence scripts in both engines and compares with the value method.
+func scripts(sum *lib.Summary, rng *lib.Rng, n int, types []lib.IntType, ops []op, keyPrefix string, mk func(t lib.IntType, o op, a, b *big.Int) string) {
+	h := lib.NewHost()
+	for i := 0; i < n; i++ {
+		t := lib.Pick(rng, types)
+		o := lib.Pick(rng, ops)
+		lat := t.Lattice()
+		a, b := lib.Pick(rng, lat), lib.Pick(rng, lat)
+		if rng.Bool() {
+			a, b = t.Random(rng), t.Random(rng)
+		}
+		src := mk(t, o, a, b)
+		if src == "" {
+			continue
+		}
+		direct := run(t, o, a, b)
+		for _, vm := range []bool{false, true} {
+			out := h.RunScript(src, nil, vm)
+			sum.Evaluations++
+			sum.Count(fmt.Sprintf("script vm=%v", vm))
+			var got outcome
+			if out.Class != "" {
+				got = outcome{cls: out.Class}
+			} else {
+				z, _ := new(big.Int).SetString(out.Value.String(), 10)
+				got = outcome{z: z}
+			}
+			if !got.eq(direct) {
+				sum.Fail(fmt.Sprintf("%s:%s:%s:vm=%v", keyPrefix, t.Name, o.Name, vm),
+					fmt.Sprintf("script `%s` (vm=%v) gives %s but the value method gives %s (err: %v)", src, vm, got, direct, out.Err),
+					map[string]any{"script": src, "vm": vm, "observed": got.String(), "value_method": direct.String()})
+			}
+		}
+	}
+}
+
+var satOps = []op{
+	{"OAdd", "saturatingAdd", func(a, b interpreter.IntegerValue) interpreter.Value { return a.SaturatingPlus(nil, b) }},
+	{"OSub", "saturatingSubtract", func(a, b interpreter.IntegerValue) interpreter.Value { return a.SaturatingMinus(nil, b) }},
+	{"OMul", "saturatingMultiply", func(a, b interpreter.IntegerValue) interpreter.Value { return a.SaturatingMul(nil, b) }},
+	{"ODiv", "saturatingDivide", func(a, b interpreter.IntegerValue) interpreter.Value { return a.SaturatingDiv(nil, b) }},
+}
+
+// satDeclared reads from the linked sema package which saturating functions a type declares.
+func satDeclared(t lib.IntType, o op) bool {
+	st, ok := semaTypeByName(t.Name).(sema.SaturatingArithmeticType)
+	if !ok {
+		return false
+	}
+	switch o.Name {
+	case "OAdd":
+		return st.SupportsSaturatingAdd()
+	case "OSub":
+		return st.SupportsSaturatingSubtract()
+	case "OMul":
+		return st.SupportsSaturatingMultiply()
+	case "ODiv":
+		return st.SupportsSaturatingDivide()
+	}
+	return false
+}
+
+func semaTypeByName(n string) sema.Type {
+	for _, t := range sema.AllIntegerTypes {
+		if t.String() == n {
+			return t
+		}
+	}
+	panic("no sema type " + n)
+}
+
+func c13(sum *lib.Summary) {
+	rng := lib.NewRng(*seed)
+	cw := &lib.CaseWriter{Dir: *dir, Prefix: "cases_C13", Header: "From CV Require Import Num.NumCases.",
+		ElemType: "ikind * binop * Z * Z * res Z", CheckFn: "check_sat", PerFile: 700}
+	distinct := map[string]bool{}
+	nrand, coqRand, nscript := sizes()
+	sum.Rule = "every (integer type, saturating function) pair that sema declares (read from the linked sema package at run time): all pairs " +
+		"of the boundary lattice, random pairs, pairs with sum/difference/product within 1 of a bound, all 65536 pairs for Int8/UInt8; each compared " +
+		"with a math/big oracle clamp(exact) in Go; a fifth of lattice pairs + random sample evaluated by the Coq model sat_model; scripts in both engines. " +
+		"non-trivial = exact result outside the range (clamping happens) or divisor zero; distinct = distinct (type,op,a,b)"
+	declared := map[string]bool{}
+	var types []lib.IntType
+	for _, t := range lib.IntTypes {
+		any := false
+		for _, o := range satOps {
+			if satDeclared(t, o) {
+				declared[t.Name+" "+o.Name] = true
+				any = true
+				// the Coq-side table sat_declared must agree with sema: emitted as a case with a marker op
+			}
+		}
+		if any {
+			types = append(types, t)
+		}
+	}
+	sum.Extra = map[string]any{"declared_saturating": keys(declared)}
+	for _, t := range types {
+		for _, o := range satOps {
+			if !declared[t.Name+" "+o.Name] {
+				continue
+			}
+			pairs(t, rng, nrand, coqRand, func(a, b *big.Int, toCoq bool) {
+				got := run(t, o, a, b)
+				sum.Evaluations++
+				var want outcome
+				nontriv := false
+				if o.Name == "ODiv" && b.Sign() == 0 {
+					want = outcome{cls: lib.EDivZero}
+					nontriv = true
+				} else {
+					ex := exactOp(o.Name, a, b)
+					want = clampOracle(t, ex)
+					nontriv = want.z.Cmp(ex) != 0
+				}
+				if nontriv {
+					key := fmt.Sprintf("%s %s %s %s", t.Name, o.Name, a, b)
+					if !distinct[key] {
+						distinct[key] = true
+						sum.DistinctNontrivial++
+					}
+					sum.Sample(map[string]string{"type": t.Name, "expr": fmt.Sprintf("(%s).%s(%s)", a, o.Sym, b), "observed": got.String()})
+					sum.Count("clamped-or-divzero")
+				}
+				sum.Count(t.Name + " " + o.Sym)
+				if !got.eq(want) {
+					sum.Fail(fmt.Sprintf("sat-arith:%s:%s", t.Name, o.Name),
+						fmt.Sprintf("%s: (%s).%s(%s) = %s, required %s", t.Name, a, o.Sym, b, got, want),
+						map[string]any{"type": t.Name, "op": o.Sym, "a": a.String(), "b": b.String(), "observed": got.String(), "required": want.String()})
+				}
+				if toCoq {
+					cw.Add(fmt.Sprintf("(%s, %s, %s, %s, %s)", t.CoqKind(), o.Name, lib.Z(a), lib.Z(b), lib.ResZ(got.cls, got.z)),
+						map[string]any{"type": t.Name, "op": o.Sym, "a": a.String(), "b": b.String(), "observed": got.String()})
+				}
+			})
+		}
+	}
+	cw.Close()
+	sum.CaseFiles = cw.Files
+	// declared table vs the Coq table sat_declared
+	tw := &lib.CaseWriter{Dir: *dir, Prefix: "cases_C13decl", Header: "From CV Require Import Num.NumCases.",
+		ElemType: "ikind * binop * bool", CheckFn: "(fun c => let '(k,o,d) := c in Bool.eqb (sat_declared k o) d)", PerFile: 700}
+	for _, t := range lib.IntTypes {
+		for _, o := range satOps {
+			d := "false"
+			if declared[t.Name+" "+o.Name] {
+				d = "true"
+			}
+			tw.Add(fmt.Sprintf("(%s, %s, %s)", t.CoqKind(), o.Name, d), map[string]any{"type": t.Name, "op": o.Sym, "declared_in_sema": d})
+		}
+	}
+	tw.Close()
+	sum.CaseFiles = append(sum.CaseFiles, tw.Files...)
+	scripts(sum, rng, nscript, types, satOps, "sat-arith-script", func(t lib.IntType, o op, a, b *big.Int) string {
+		if !declared[t.Name+" "+o.Name] {
+			return ""
+		}
+		return fmt.Sprintf("access(all) fun main(): %s { let a: %s = %s; let b: %s = %s; return a.%s(b) }", t.Name, t.Name, a, t.Name, b, o.Sym)
+	})
+}
+
+func keys(m map[string]bool) []string {
+	var ks []string
+	for k := range m {
+		ks = append(ks, k)
+	}
+	sort.Strings(ks)
+	return ks
 }
